@@ -193,7 +193,7 @@ RGB_SLOT = dict(q=L('0', '255', '128', '300', '20%', '100%', '50%'),
 FAMS = [
     dict(fam='trbl', props=['margin', 'padding', 'border-width'], kind='list', min=1, max=dict(q=4, t=4),
          slots=[dict(q=L('0', '0px', '1px', '0%', '.5em', 'auto'),
-                     t=L('0', '0px', '1px', '0%', '.5em', 'auto', '-1px', '0.0em', '1PX', 'calc(1px + 0px)', '0deg'))]),
+                     t=L('0', '0px', '1px', '0%', '.5em', 'auto', '-1px', '0.0em', '1PX', 'calc(1px + 0px)', '0s'))]),
     dict(fam='bgpos', props=['background-position'], kind='list', min=1, max=dict(q=4, t=4),
          slots=[dict(q=L('left', 'right', 'top', 'bottom', 'center', '0', '10%', '50%', '100%', '1px'),
                      t=L('left', 'right', 'top', 'bottom', 'center', '0', '0%', '0px', '10%', '20%', '50%', '100%', '1px', '10.5%', '-5%', '150%', 'CENTER', ','))]),
@@ -261,7 +261,7 @@ COLORTOKS_Q = ['#000', '#FFF', '#f00', '#FF0000', '#ff0000', '#c0c0c0', '#aabbcc
 COLORTOKS_T = COLORTOKS_Q + ['#FFFF', '#ffff00', '#f0f', '#a52a2a', '#A52A2A', '#ffffff00', '#fff0', '#0f08', '#123456', '#1234567', 'currentColor', 'TRANSPARENT', 'Red', 'BLACK']
 STRURL = ['"a"', "'a'", '"a\\\nb"', '"a\\"b"', "'it\\'s'", '"\\61 b"', '""', 'url(a)', 'url("a")', "url( 'a b' )", 'url("a)b")', 'url(data:,x)',
           "url('data:text/plain;base64,YWJj')", 'URL(x)', 'url("http://x/y?z=1#k")', "url('abc\\\ndef')", 'url(  a.png  )', 'url("a\\62")',
-          "url('data:image/svg+xml;charset=utf8,%3Csvg xmlns=%27http://www.w3.org/2000/svg%27%3E%3C/svg%3E')",
+          'url("data:image/svg+xml;charset=utf8,%3Csvg xmlns=%27http://www.w3.org/2000/svg%27%3E%3C/svg%3E")',
           'url("data:image/png;base64,iVBORw0KGgo=")', 'url()', 'url("")', "local('Foo Bar')", 'local("Foo")', 'format("woff")', ',']
 SEL_Q = [('a', 'type'), ('DIV', 'type'), ('*', 'type'), ('.Cls', 'sub'), ('#Id', 'sub'), (' > ', 'comb'), ('+', 'comb'), (' ~ ', 'comb'), (' ', 'comb'), (' , ', 'comb'),
          ('[type="radio"]', 'sub'), (':hover', 'sub'), ('::before', 'sub'), (':not(.x)', 'sub'), (':nth-child(2n + 1)', 'sub')]
@@ -405,8 +405,24 @@ def complete(F, fam, seq):
 
 # narrow syntactic constructs of known findings: the generator does not emit them (the pinned
 # witnesses in known/C04.ndjson keep the defects visible)
-def excluded(F, prop, text):
-    if F['fam'] in ('bgpos', 'background') and re.search(r'\b(right|bottom)\s+-?[\d.]+%', text, re.I) and \
+GENERIC_FAMILIES = {'serif', 'sans-serif', 'monospace', 'cursive', 'fantasy', 'system-ui', 'inherit', 'initial', 'unset', 'default', 'revert'}
+ANGLE_UNITS = {'deg', 'grad', 'rad', 'turn'}
+NUM_ZERO = re.compile(r'^[+-]?(0*\.?0*)(e[+-]?\d+)?$', re.I)
+
+
+def excluded(F, prop, text, lexs):
+    fam = F['fam']
+    if fam == 'bordercolor' and 'currentcolor' in text.lower() and len(lexs) > 1:
+        return 'border-color: currentcolor inside a list of 2-4 colours'
+    if fam in ('font', 'fontfamily') and any(len(x) > 2 and x[0] in '"\'' and x[1:-1].lower() in GENERIC_FAMILIES for x in lexs):
+        return 'font-family: quoted generic-family / CSS-wide keyword'
+    if fam == 'num' and lexs[2] == 'top' and lexs[1].lower() in ANGLE_UNITS and NUM_ZERO.match(lexs[0]):
+        return 'zero <angle> directly in a declaration value'
+    if fam == 'colortok' and re.match(r'^#[0-9a-fA-F]{6}00$|^#[0-9a-fA-F]{3}0$', text) and text.lower() not in ('#00000000', '#0000'):
+        return 'hex colour with alpha 00 and non-black channels'
+    if fam == 'background' and sum(1 for x in lexs if x.lower() in ('padding-box', 'border-box', 'content-box')) > 2:
+        return 'background: more than two box keywords in a layer (panic)'
+    if fam in ('bgpos', 'background') and re.search(r'\b(right|bottom)\s+-?[\d.]+%', text, re.I) and \
             len(re.findall(r'\b(left|right|top|bottom|center)\b', text, re.I)) >= 2:
         return 'background-position: right/bottom with a percentage offset in the 3/4-value syntax'
     return None
@@ -429,6 +445,7 @@ def gen_cases(ctx):
         if not complete(F, fam, st['seq']):
             continue
         text = render(F, fam, st['seq'])
+        lexs = [fam['slots'][0 if F['kind'] in ('list', 'sel') else j][c - 1]['lex'] for j, c in enumerate(st['seq'])]
         per_fam.setdefault(F['fam'], [0, 0])
         per_fam[F['fam']][0] += 1
         if F['kind'] == 'sel':
@@ -444,7 +461,7 @@ def gen_cases(ctx):
         if ctx.quick() and len(props) > 1:
             props = [props[0]] if ctx.rnd.random() < 0.5 else [ctx.rnd.choice(props)]
         for prop in props:
-            why = excluded(F, prop, text)
+            why = excluded(F, prop, text, lexs)
             if why:
                 excl[why] = excl.get(why, 0) + 1
                 continue
